@@ -76,7 +76,7 @@ type vote struct {
 	Step   int    `json:"step"`   // real step number
 	Hash   int    `json:"hash"`   // 0 = proposed block, 1 = empty block, 9 = zero hash
 	Parent int    `json:"parent"` // 0 = previous block, 1 = another hash
-	Flag   int    `json:"flag"`   // 1 = TurnOffline set
+	Flag   int    `json:"flag"`   // per-signature fields: 1 = TurnOffline set, 2 = Upgrade set
 	Sig    string `json:"sig"`    // good | mall | forged
 }
 
@@ -282,6 +282,9 @@ func (r *rig) mkVote(v vote, k keyT, variant int) *types.Vote {
 		VotedHash:   r.realHash(v.Hash),
 		TurnOffline: v.Flag == 1,
 	}}
+	if v.Flag == 2 {
+		res.Header.Upgrade = 7
+	}
 	h := crypto.SignatureHash(res)
 	sig, err := crypto.Sign(h[:], k.priv)
 	if err != nil {
@@ -817,7 +820,7 @@ func (r *rig) runRandom(idx int, seed int64) tr.M {
 		hash = 1
 	}
 	for _, a := range approved[:k] {
-		c.Votes = append(c.Votes, vote{Voter: a, Step: int(step), Hash: hash, Flag: b2i(rng.Intn(5) == 0), Sig: "good"})
+		c.Votes = append(c.Votes, vote{Voter: a, Step: int(step), Hash: hash, Flag: b2i(rng.Intn(5) == 0) * (1 + rng.Intn(2)), Sig: "good"})
 	}
 	// deviating votes
 	for d := rng.Intn(3); d > 0; d-- {
@@ -835,7 +838,7 @@ func (r *rig) runRandom(idx int, seed int64) tr.M {
 		case 2: // same voter, other flag
 			if len(c.Votes) > 0 {
 				v = c.Votes[rng.Intn(len(c.Votes))]
-				v.Flag = 1 - v.Flag
+				v.Flag = (v.Flag + 1 + rng.Intn(2)) % 3
 			}
 		case 3:
 			v.Sig = "forged"
@@ -891,7 +894,13 @@ type detOp struct {
 	P  int    `json:"p"`
 }
 
-// applyOps performs chain-like changes on the identity state AND on the abstract shape.
+// applyOps performs chain-like changes on the real identity state and mirrors them on the abstract shape.
+// The mirror follows the semantics of the state objects exactly: the setters change one field each
+// (IdentityStateDB.Remove clears validated and online but leaves discriminated / delegatee in the object),
+// and an object that is neither validated nor online when the block is committed is deleted.  The guards keep
+// the invariants the chain keeps (a delegator is never online or a pool, a pool owner never delegates): on
+// identity states outside them (e.g. a non-validated online entry that still carries a delegatee) Load and the
+// incremental update are known to disagree, which is C10's subject, not a committee-determinism verdict.
 func applyOps(rng *rand.Rand, w *world, ids []ident, nops int) []detOp {
 	ops := []detOp{}
 	n := len(ids)
@@ -908,21 +917,21 @@ func applyOps(rng *rand.Rand, w *world, ids []ident, nops int) []detOp {
 		id := &ids[i-1]
 		addr := w.keys[i].addr
 		switch rng.Intn(8) {
-		case 0: // newly validated
+		case 0: // newly validated (epoch result)
 			if !id.V {
 				id.V, id.D = true, rng.Intn(3) == 0
 				w.ids.SetValidated(addr, true)
 				w.ids.SetDiscriminated(addr, id.D)
 				ops = append(ops, detOp{"validate", i, 0})
 			}
-		case 1: // killed / failed validation: IdentityState.Remove
+		case 1: // killed / failed validation: IdentityStateDB.Remove
 			if id.V && !isPool(i) {
-				*id = ident{}
+				id.V, id.O = false, false
 				w.ids.Remove(addr)
 				ops = append(ops, detOp{"remove", i, 0})
 			}
-		case 2: // goes online
-			if id.V && id.Del == 0 && !id.O || (!id.V && isPool(i) && !id.O) {
+		case 2: // goes online: a validated non-delegator, or the owner of a pool
+			if !id.O && id.Del == 0 && (id.V || isPool(i)) { // an identity with a delegatee cannot send the online tx
 				id.O = true
 				w.ids.SetOnline(addr, true)
 				ops = append(ops, detOp{"online", i, 0})
@@ -931,14 +940,11 @@ func applyOps(rng *rand.Rand, w *world, ids []ident, nops int) []detOp {
 			if id.O {
 				id.O = false
 				w.ids.SetOnline(addr, false)
-				if !id.V {
-					*id = ident{}
-				}
 				ops = append(ops, detOp{"offline", i, 0})
 			}
 		case 4: // delegation switch
 			p := 1 + rng.Intn(n)
-			if id.V && id.Del == 0 && !isPool(i) && p != i && ids[p-1].Del == 0 {
+			if id.V && id.Del == 0 && !isPool(i) && p != i && ids[p-1].Del == 0 { // no delegation to a delegator, none by a pool
 				id.Del, id.O, id.D = p, false, rng.Intn(4) == 0
 				w.ids.SetDelegatee(addr, w.keys[p].addr)
 				w.ids.SetDiscriminated(addr, id.D)
@@ -963,6 +969,15 @@ func applyOps(rng *rand.Rand, w *world, ids []ident, nops int) []detOp {
 	return ops
 }
 
+// afterCommit mirrors Precommit(deleteEmptyObjects): objects that are neither validated nor online are gone.
+func afterCommit(ids []ident) {
+	for i := range ids {
+		if !ids[i].V && !ids[i].O {
+			ids[i] = ident{}
+		}
+	}
+}
+
 func (r *rig) runDet(idx int, seed int64, out func(tr.M)) {
 	rng := rand.New(rand.NewSource(seed*104729 + int64(idx)))
 	var n int
@@ -985,6 +1000,7 @@ func (r *rig) runDet(idx int, seed int64, out func(tr.M)) {
 			if err != nil {
 				panic(err)
 			}
+			afterCommit(ids)
 			inc.UpdateFromIdentityStateDiff(diff)
 		}
 		a := validators.NewValidatorsCache(w.ids, w.god)
